@@ -86,7 +86,7 @@ Definition expired_sub (g : cfg) (t : N) (b : sub) : bool :=
 
 (* expected events of one label, new remembered state, and the deadline the snapshot must show:
    result (z', expected events as a bag?, exact?, extra check on the snapshot) *)
-Definition step_spec (g : cfg) (z : sst) (l : label) (o : list out) (sn : snap) : sst * bool :=
+Definition step_spec0 (g : cfg) (z : sst) (l : label) (o : list out) (sn : snap) : sst * bool :=
   let keep (z' : sst) (ok : bool) :=
     (mkSst (z_now z') (z_closed z' || has_close o) (z_auth z') (z_pinged z') (z_answered z')
            (z_exp z') (z_csr z') (z_subs z') (sn_armed sn),
@@ -116,6 +116,7 @@ Definition step_spec (g : cfg) (z : sst) (l : label) (o : list out) (sn : snap) 
                   (z_subs z ++ [mkSub (sb_name b) (sb_exp b) (sb_csr b) (sb_server b) (sb_pos b) (z_now z) (sb_bad b)])
                   (z_armed z))
            (outs_eqb o [])
+  | LConnectSlow _ _ _ _ _ => (z, false)     (* taken apart by [step_spec] below *)
   | LStream n bad =>
       keep (mkSst (z_now z) false (z_auth z) (z_pinged z) (z_answered z) (z_exp z) (z_csr z)
                   (map (fun x => if sb_name x =? n
@@ -231,6 +232,17 @@ Definition step_spec (g : cfg) (z : sst) (l : label) (o : list out) (sn : snap) 
                          (sn_pr sn =? z_now z + g_presence g))
           end
       end
+  end.
+
+(* a connect whose OnConnect handler takes d seconds is a connect d seconds later: in particular
+   nothing closes the (authenticated) connection in between, whatever the stale timer does *)
+Definition step_spec (g : cfg) (z : sst) (l : label) (o : list out) (sn : snap) : sst * bool :=
+  match l with
+  | LConnectSlow e c fp fi d =>
+      let '(z1, ok1) := step_spec0 g z (LAdvance d) [] sn in
+      if z_closed z || z_auth z then (z1, ok1 && outs_eqb o [])
+      else let '(z2, ok2) := step_spec0 g z1 (LConnect e c fp fi) o sn in (z2, ok1 && ok2)
+  | _ => step_spec0 g z l o sn
   end.
 
 Fixpoint steps_spec (g : cfg) (z : sst) (ls : list label) (os : list (list out)) (sns : list snap) : bool :=
